@@ -188,3 +188,123 @@ Proof.
     + apply Tout. eapply I4; eauto.
 Qed.
 End WithOracles.
+
+(* ================= reciprocity for feeds whose associations form a partial bijection ================= *)
+Section Reciprocity.
+Variable cm : Z -> Z -> Z -> Z.
+Variable tz : option string.
+Variable cfg : ext_cfg.
+
+(* the (trip, id-bearing vehicle) association one entity states *)
+Definition entity_pairs (es : entity * bool) : list (trip_key * vehicle_id) :=
+  let '(e, skip) := es in
+  if skip then [] else
+  match e_tu e with
+  | Some tu => match snd (parse_trip_update cm tz cfg tu) with
+               | Some v => match ve_id v with Some id => [(tr_key (fst (parse_trip_update cm tz cfg tu)), id)] | None => [] end
+               | None => [] end
+  | None =>
+    match e_vp e with
+    | Some vp => match fst (parse_vehicle cm tz vp), ve_id (snd (parse_vehicle cm tz vp)) with
+                 | Some t, Some id => [(tr_key t, id)]
+                 | _, _ => [] end
+    | None => []
+    end
+  end.
+Definition set_pairs (a : acc) (ps : list (trip_key * vehicle_id)) : list (trip_key * vehicle_id) * list (vehicle_id * trip_key) :=
+  fold_left (fun tv p => (gset tk_eqb (fst p) (snd p) (fst tv), gset vi_eqb (snd p) (fst p) (snd tv))) ps (a_t2v a, a_v2t a).
+Lemma entity_step_tables a es :
+  (a_t2v (entity_step cm tz cfg a es), a_v2t (entity_step cm tz cfg a es)) = set_pairs a (entity_pairs es).
+Proof.
+  destruct es as [e skip]. unfold entity_step, entity_pairs, set_pairs. destruct skip; [reflexivity|].
+  destruct (e_tu e) as [tu|].
+  - destruct (parse_trip_update cm tz cfg tu) as [t v]. cbn [fst snd]. unfold add_trip_vehicle.
+    destruct v as [v|]; [|reflexivity]. destruct (ve_id v); reflexivity.
+  - destruct (e_vp e) as [vp|]; [|destruct (e_alert e); [destruct (parse_alert _ _ _ _)|]; reflexivity].
+    destruct (parse_vehicle cm tz vp) as [t v]. cbn [fst snd]. unfold add_trip_vehicle.
+    destruct (ve_id v); destruct t; reflexivity.
+Qed.
+Lemma fold_tables l : forall a,
+  (a_t2v (fold_left (entity_step cm tz cfg) l a), a_v2t (fold_left (entity_step cm tz cfg) l a)) = set_pairs a (flat_map entity_pairs l).
+Proof.
+  induction l as [|es l IH]; intros a; cbn [fold_left flat_map]; [reflexivity|]. rewrite IH. unfold set_pairs. rewrite fold_left_app.
+  f_equal. change (fold_left _ (entity_pairs es) (a_t2v a, a_v2t a)) with (set_pairs a (entity_pairs es)). now rewrite <- entity_step_tables.
+Qed.
+(* lookups in tables built from a list of pairs: the LAST pair with that key *)
+Fixpoint last_for {A B} (eqb : A -> A -> bool) (k : A) (ps : list (A * B)) (cur : option B) : option B :=
+  match ps with [] => cur | p :: r => last_for eqb k r (if eqb k (fst p) then Some (snd p) else cur) end.
+Lemma set_pairs_lookup ps : forall t2v v2t k i,
+  let tv := fold_left (fun tv p => (gset tk_eqb (fst p) (snd p) (fst tv), gset vi_eqb (snd p) (fst p) (snd tv))) ps (t2v, v2t) in
+  glookup tk_eqb k (fst tv) = last_for tk_eqb k ps (glookup tk_eqb k t2v) /\
+  glookup vi_eqb i (snd tv) = last_for vi_eqb i (map (fun p => (snd p, fst p)) ps) (glookup vi_eqb i v2t).
+Proof.
+  induction ps as [|p ps IH]; intros t2v v2t k i; cbn [fold_left map last_for]; [split; reflexivity|].
+  destruct (IH (gset tk_eqb (fst p) (snd p) t2v) (gset vi_eqb (snd p) (fst p) v2t) k i) as [A B]. cbn zeta in A, B. cbn [fst snd] in *.
+  rewrite A, B, (glookup_gset tk_eqb tk_eqb_spec), (glookup_gset vi_eqb vi_eqb_spec). split; reflexivity.
+Qed.
+Lemma last_for_in {A B} (eqb : A -> A -> bool) (spec : forall a b, reflect (a = b) (eqb a b)) k (ps : list (A * B)) : forall cur v,
+  last_for eqb k ps cur = Some v -> In (k, v) ps \/ cur = Some v.
+Proof.
+  induction ps as [|p ps IH]; intros cur v H; cbn in *; [now right|]. destruct (IH _ _ H) as [Hin|E]; [left; now right|].
+  destruct (spec k (fst p)) as [->|N]; [inversion E; subst; left; left; now destruct p|now right].
+Qed.
+Lemma last_for_some {A B} (eqb : A -> A -> bool) (spec : forall a b, reflect (a = b) (eqb a b)) k (v : B) (ps : list (A * B)) : forall cur,
+  (In (k, v) ps \/ cur = Some v) -> (forall v', In (k, v') ps -> v' = v) -> last_for eqb k ps cur = Some v.
+Proof.
+  induction ps as [|p ps IH]; intros cur Hin Hf; cbn [last_for]; [destruct Hin as [[]|E]; exact E|].
+  apply IH; [|intros v' H'; apply Hf; now right]. destruct (spec k (fst p)) as [E|N].
+  - right. f_equal. apply Hf. left. destruct p; cbn in *; now subst.
+  - destruct Hin as [[E|Hin]|E]; [subst p; cbn in N; congruence|now left|now right].
+Qed.
+
+(* the associations of a feed form a partial bijection: a trip is paired with one vehicle id only, and vice versa *)
+Definition bijective (ps : list (trip_key * vehicle_id)) : Prop :=
+  forall k i k' i', In (k, i) ps -> In (k', i') ps -> (k = k' <-> i = i').
+Theorem tables_mutually_inverse l : let ps := flat_map entity_pairs l in bijective ps ->
+  let a := fold_left (entity_step cm tz cfg) l acc0 in
+  forall k i, glookup tk_eqb k (a_t2v a) = Some i <-> glookup vi_eqb i (a_v2t a) = Some k.
+Proof.
+  cbn zeta. intros Hb k i. pose proof (fold_tables l acc0) as E. unfold set_pairs in E.
+  destruct (set_pairs_lookup (flat_map entity_pairs l) (a_t2v acc0) (a_v2t acc0) k i) as [A B]. cbn zeta in A, B. rewrite <- E in A, B. cbn [fst snd] in A, B.
+  rewrite A, B. cbn [acc0 a_t2v a_v2t glookup]. set (ps := flat_map entity_pairs l) in *.
+  assert (Sw : forall k0 i0, In (i0, k0) (map (fun p : trip_key * vehicle_id => (snd p, fst p)) ps) <-> In (k0, i0) ps).
+  { intros k0 i0. rewrite in_map_iff. split; [intros [[k1 i1] [E1 H1]]; cbn in E1; inversion E1; subst; exact H1|intros H; exists (k0, i0); split; [reflexivity|exact H]]. }
+  split; intros H.
+  - apply (last_for_in tk_eqb tk_eqb_spec) in H as [Hin|H]; [|discriminate].
+    apply (last_for_some vi_eqb vi_eqb_spec); [left; now apply Sw|]. intros k' Hk'. apply Sw in Hk'. symmetry. apply (Hb k i k' i Hin Hk'). reflexivity.
+  - apply (last_for_in vi_eqb vi_eqb_spec) in H as [Hin|H]; [|discriminate]. apply Sw in Hin.
+    apply (last_for_some tk_eqb tk_eqb_spec); [now left|]. intros i' Hi'. symmetry. apply (Hb k i k i' Hin Hi'). reflexivity.
+Qed.
+
+(* hence, in the result: the trip's vehicle reference and that vehicle's trip reference lead to each other *)
+Theorem links_reciprocal m : let p := pre_pass cfg m in let l := combine (pr_entities p) (pr_skip p) in
+  bijective (flat_map entity_pairs l) ->
+  let r := parse_message cm tz cfg m in
+  (forall t i, In t (rt_trips r) -> tr_vehicle t = Some (Some i) -> exists v, In v (rt_vehicles r) /\ ve_id v = Some i /\ ve_trip v = Some (tr_key t)) /\
+  (forall v i k, In v (rt_vehicles r) -> ve_id v = Some i -> ve_trip v = Some k -> exists t, In t (rt_trips r) /\ tr_key t = k /\ tr_vehicle t = Some (Some i)).
+Proof.
+  cbn zeta. intros Hb. pose proof (tables_mutually_inverse _ Hb) as Inv. cbn zeta in Inv.
+  unfold parse_message. set (l := combine _ _) in *. set (a := fold_left (entity_step cm tz cfg) l acc0) in *.
+  assert (La : link_inv a) by (apply fold_entity_step_links, acc0_links).
+  assert (Ia : acc_inv tz a) by (apply fold_entity_step_ok, acc0_ok).
+  destruct La as (I1 & I2 & I3 & I4 & I5 & I6). destruct Ia as [[_ Hf] [_ Hvf]]. rewrite Forall_forall in Hf, Hvf, I5, I6.
+  assert (Noid : forall v, In v (a_noid a) -> ve_id v = None).
+  { intros v Hv. apply (a_noid_idless cm tz cfg l acc0); [intros v0 Hv0; destruct Hv0|exact Hv]. }
+  split.
+  - intros t i Hin Hv. unfold finish in Hin; cbn [rt_trips] in Hin. apply in_isort in Hin. apply in_map_iff in Hin as [[k t0] [<- Hin]].
+    pose proof (I5 _ Hin) as N0. cbn in N0. destruct (Hf _ Hin) as [Ek _]. cbn in Ek.
+    destruct (glookup tk_eqb k (a_t2v a)) as [vid|] eqn:E; [|destruct (existsb (tk_eqb k) (a_t2noid a)); cbn in Hv; congruence].
+    cbn in Hv. inversion Hv; subst vid. destruct (I1 k i E) as [_ Hk]. apply in_map_iff in Hk as [[i' v0] [Ei Hvin]]. cbn in Ei. subst i'.
+    exists (match glookup vi_eqb i (a_v2t a) with Some k0 => set_vehicle_trip v0 (Some k0) | None => v0 end). split; [|split].
+    + unfold finish; cbn [rt_vehicles]. apply in_app_iff. left. apply in_isort. apply in_map_iff. exists (i, v0). split; [reflexivity|exact Hvin].
+    + pose proof (Hvf _ Hvin) as Ev. cbn in Ev. destruct (glookup vi_eqb i (a_v2t a)); cbn; exact Ev.
+    + apply Inv in E. rewrite E. cbn. now rewrite Ek.
+  - intros v i k Hin Hid Hv. unfold finish in Hin; cbn [rt_vehicles] in Hin. apply in_app_iff in Hin as [Hin|Hin]; [|rewrite (Noid v Hin) in Hid; discriminate].
+    apply in_isort in Hin. apply in_map_iff in Hin as [[i0 v0] [<- Hin]]. pose proof (I6 _ Hin) as N0. pose proof (Hvf _ Hin) as Ev. cbn in N0, Ev.
+    destruct (glookup vi_eqb i0 (a_v2t a)) as [k0|] eqn:E; cbn in Hv, Hid; [|congruence].
+    rewrite Ev in Hid. inversion Hid; subst i0. inversion Hv; subst k0. destruct (I2 i k E) as [_ Hk]. apply in_map_iff in Hk as [[k' t0] [Ek' Htin]]. cbn in Ek'. subst k'.
+    destruct (Hf _ Htin) as [Ek _]. cbn in Ek. apply Inv in E.
+    exists (set_trip_vehicle t0 (Some (Some i))). split; [|split; [exact Ek|reflexivity]].
+    unfold finish; cbn [rt_trips]. apply in_isort. apply in_map_iff. exists (k, t0). split; [now rewrite E|exact Htin].
+Qed.
+End Reciprocity.
